@@ -175,3 +175,10 @@ OBLIGATIONS = [Obligation(
                  "lenient reading: a user who registers while having no live connection may or may not be listed",
                  "log statements removed at import (symbolic run only)"],
 )]
+
+MANIFEST = {
+    "level": "model_checking",
+    "text": "Bounded exhaustive exploration (CrossHair/z3 path enumeration) of the real FromFrontend.user_subscribed_pubsub / on_ws_disconnect / register_active_user / unregister_active_user, driven through the callbacks FromFrontend registers on the publisher: every history of subscribe, websocket close, register and unregister events within the bound is executed and compared after each event with a reference model written from the statement (a user may be listed only while registered and not after their last live connection closed).",
+    "note": "The inputs are discrete event selectors, so the solver enumerates histories rather than abstracting values; one path = one history. Trusted: CrossHair's int model, z3, the reference model in props/C37.py. Stub publisher (records callbacks), engine data placed directly in the engine map, symmetry reduction over interchangeable ids, connection ids never reused; longer histories and more users/connections are outside the claim.",
+    "technique": "symbolic execution of the real code (CrossHair + z3) against a reference model, bounded exhaustive over event histories, counterexample replay",
+}
